@@ -939,7 +939,14 @@ pub fn semantic_key_histories(ctx: &mut Ctx, monitor: &str, judged_ops: &[&str])
 /// call gave when it ran alone. Shared scratch state behind an operator (a one-slot cache of a
 /// split string, a table of parsed paths) shows as a result that belongs to another thread's call.
 pub fn concurrent_replay(ctx: &mut Ctx, monitor: &str) {
-    let pool: Arc<Vec<(Value, Value, String)>> = Arc::new(std::mem::take(&mut ctx.replay_pool));
+    // Some monitors judge a huge document under a short stand-in (far ladders): an entry is used only
+    // if the call, made once more alone, reproduces the recorded outcome.
+    let taken = std::mem::take(&mut ctx.replay_pool);
+    let before = taken.len();
+    let kept: Vec<(Value, Value, String)> = taken.into_iter().filter(|(r, d, want)| &crate::ctx::outcome_key_plain(&observe::call(r, d)) == want).collect();
+    ctx.evaluations += before as u64;
+    let not_reproduced_alone = before - kept.len();
+    let pool: Arc<Vec<(Value, Value, String)>> = Arc::new(kept);
     if pool.len() < 16 {
         return;
     }
@@ -993,5 +1000,5 @@ pub fn concurrent_replay(ctx: &mut Ctx, monitor: &str) {
         ctx.violation_x(monitor, &format!("concurrent-result-differs:{}", crate::ctx::top_op(r)), r, d, json!({ "alone": want }), json!({ "concurrent": got }), "a call that agreed with the reference semantics when it ran alone gave a different result while other threads were evaluating", json!({"thread": t, "threads": threads, "phase": phase}));
     }
     ctx.cell("concurrent-replay");
-    ctx.extra.insert("concurrent_replay".into(), json!({"calls_sampled": pool.len(), "threads": threads, "passes": passes, "hammer_calls_per_thread": hammer_calls}));
+    ctx.extra.insert("concurrent_replay".into(), json!({"calls_sampled": pool.len(), "stand_ins_dropped": not_reproduced_alone, "threads": threads, "passes": passes, "hammer_calls_per_thread": hammer_calls}));
 }
